@@ -355,9 +355,10 @@ needs 8 bins of prime length 5, outside the enumerated symmetric-variant range);
 unexpected load failure to a model mismatch instead of crashing.  The second round (seeds named
 `*_r2_*`, each in a different function than the first) was caught at once for 11 properties; the 9 that
 were missed led to the extensions noted in the table, and one of them exposed the open finding D24.
-Rounds 3 to 7 (`*_r3_*` .. `*_r7_*`) asked each time for a different function and for specific kinds of
-mistake (aliasing, dtype, ignored options, boundary sizes, rarely used entry points); the share caught at
-the first run rose from about 55 % to 70 %, and every miss was turned into a check extension (column
+Rounds 3 to 8 (`*_r3_*` .. `*_r8_*`) asked each time for a different function and for specific kinds of
+mistake (aliasing, dtype, ignored options, boundary sizes, rarely used entry points; round 8: defects that need a
+combination - state kept between calls, two options together, a particular order of operations); the share caught at
+the first run was between 50 % and 70 % per round (lowest for the stateful round 8), and every miss was turned into a check extension (column
 "detected" of the table).
 
 **Harmless rewrites (false-alarm experiment).**  The converse was tested too: for every property a fresh
